@@ -36,7 +36,12 @@ Definition chk (c : c15_case) : bool :=
   (* [returns] evaluated level by level (Properties/C15.v: C15_levels_compute_returns), under its two premises *)
   calls_closed nodes
   && forallb (fun tb => existsb (gty_eqb (fst tb)) (positions nodes)
-                        && Bool.eqb (returns_level nodes (S (List.length nodes)) (fst tb)) (snd tb)) (c15_runs c)
+                        && (Bool.eqb (returns_level nodes (S (List.length nodes)) (fst tb)) (snd tb)
+                            (* a function that returns in theory after more calls than can be made within the time
+                               limit of the harness may be observed not to return *)
+                            || (returns_level nodes (S (List.length nodes)) (fst tb) && negb (snd tb)
+                                && match max_calls nodes (S (List.length nodes)) (fst tb) with
+                                   | Some c => N.leb 2000000 c | None => true end))) (c15_runs c)
   && forallb (replay_ok c) (c15_vals c).
 
 (** the observed nodes, with the enum-typed positions being those the enum detection model (C10) finds in the facts *)
